@@ -1,3 +1,96 @@
-(** C03 -- schema exports are faithful (placeholder while the models are built). *)
+(** C03 -- schema exports are faithful: the HCL document and the SQL script that
+    `schema inspect` prints re-create the inspected database; inspecting twice gives
+    the same output.  Only statements, [exact] and [Print Assumptions] live here.
+
+    The SQLite inspector recovers CHECK constraints, constraint names, generated
+    expressions, AUTOINCREMENT and partial-index predicates from the stored CREATE
+    text with regular expressions (sql/sqlite/inspect.go).  Sqlite/ExportModel.v holds
+    those matchers (tied to the real inspector on every run: stage "regex"), and a
+    printer of the text the planner emits.  In the statements below the double-quote
+    byte is written <dq>. *)
 From Coq Require Import List NArith Bool Arith.
+From Atlas Require Import Base.Bytes Sqlite.ExportModel Sqlite.ExportProofs.
 Import ListNotations.
+Require Import Coq.Strings.String.
+Open Scope string_scope.
+Open Scope list_scope.
+
+(** 1. scanExpr (the helper every recovery ends with): pointed at a wrapped expression
+    -- "(" body ")" where the body is made of plain bytes, closed '...'/<dq>...<dq>
+    literals and parenthesised groups -- followed by ANY text, it returns exactly the
+    expression.  All bodies, all continuations. *)
+Theorem C03_scanExpr_exact :
+  forall e rest, wrapped e -> scan_expr (e ++ rest) = e.
+Proof. exact scan_expr_wrapped. Qed.
+Print Assumptions C03_scanExpr_exact.
+
+(** 2. C03_regex_inverts_printer, CHECK part, at full strength for the planner's printer:
+    for every list of constraints [cks] -- names arbitrary non-empty \w+ byte strings or
+    absent, expressions arbitrary wrapped expressions -- printed the way
+    sqlite/migrate.go addTable/check prints them (", CONSTRAINT `n` CHECK (e)" / ", CHECK (e)"),
+    after ANY text [x] that does not contain the letters CHECK (in any case) and before the
+    closing parenthesis and ANY table options free of those letters, fillChecks returns
+    exactly the printed constraints, in order.
+    What is missing for the full statement (all of inspect.go's recoveries, all identifiers):
+    the same theorem for setGenExpr / autoinc / fillConstName / the index predicate; they are
+    modelled and tied, their failures are the _refuted theorems below, and the premise on [x]
+    cannot be dropped (3a). *)
+Theorem C03_regex_inverts_printer_partial :
+  forall x cks post0,
+  occurs_ci K_CHECK x = false -> Forall check_ok cks -> occurs_ci K_CHECK post0 = false ->
+  fill_checks (x ++ checks_text cks ++ ch_rp :: post0) = cks.
+Proof. exact fill_checks_inverts_printer. Qed.
+Print Assumptions C03_regex_inverts_printer_partial.
+
+Example C03_regex_inverts_printer_nonvacuous :
+  Forall check_ok w_cks /\
+  fill_checks (B "CREATE TABLE `t` (`a` int NULL, `b` text NULL" ++ checks_text w_cks ++ ch_rp :: B " STRICT") = w_cks.
+Proof. split; [exact w_cks_ok|vm_compute; reflexivity]. Qed.
+
+(** 3. The full statement "the recovery applied to the text the planner emits returns what was
+    printed" is FALSE of inspect.go.  Each witness is a statement SQLite accepts and stores
+    verbatim; each was reproduced on the real inspector (known findings of the same names).
+    3a. fillChecks: a DEFAULT string containing "check (" -- the planner's own text for
+        Column{b text, Default: Literal 'check (x)'} -- yields a constraint that does not exist. *)
+Theorem C03_regex_inverts_printer_refuted_check :
+  exists x, fill_checks (x ++ checks_text [] ++ ch_rp :: []) <> [].
+Proof.
+  exists (B "CREATE TABLE `t` (`a` int NULL, `b` text NULL DEFAULT 'check (x)'").
+  vm_compute. discriminate.
+Qed.
+Print Assumptions C03_regex_inverts_printer_refuted_check.
+
+(** 3b. setGenExpr: in the planner's own CREATE TABLE with generated columns `cx` AS (a + 1)
+    and `c` AS (a * 2), column c is given cx's expression (the name is matched without a
+    boundary); and a string literal holding "AS (" inside the expression is taken for the
+    start of the expression. *)
+Theorem C03_regex_inverts_printer_refuted_genexpr :
+  set_gen_expr (B "c") w_gen_text = GenOk (B "(a + 1)") /\
+  set_gen_expr (B "g") w_gen_as_text = GenOk (B "(x')").
+Proof. exact (conj (proj1 w_gen_prefix) w_gen_as). Qed.
+Print Assumptions C03_regex_inverts_printer_refuted_genexpr.
+
+(** 3c. autoinc: a [bracket]-quoted AUTOINCREMENT column is not recognised, and the letters
+    AUTOINCREMENT later in the definition of a plain INTEGER PRIMARY KEY column are. *)
+Theorem C03_autoinc_refuted :
+  autoinc w_auto_bracket [B "id"; B "b"] [B "id"] = AutoNone /\
+  autoinc w_auto_phantom [B "id"; B "autoincrement_x"] [B "id"] = AutoOk (B "id").
+Proof. exact w_autoinc. Qed.
+Print Assumptions C03_autoinc_refuted.
+
+(** 3d. partial-index predicate: the planner's own CREATE INDEX `ix_WHERE_y` ... WHERE a > 0 is cut
+    at the WHERE inside the name; a lower-case `where` is not found at all (inspection fails). *)
+Theorem C03_index_predicate_refuted :
+  index_predicate (B "CREATE INDEX `ix_WHERE_y` ON `t` (`a`) WHERE a > 0") = Some (B "_y` ON `t` (`a`) WHERE a > 0") /\
+  index_predicate (B "CREATE INDEX i on t (a) where a > 0") = None.
+Proof. exact w_where. Qed.
+Print Assumptions C03_index_predicate_refuted.
+
+(** 3e. fillConstName: of two foreign keys with the same columns and target the first one of the
+    PRAGMA list gets every name: here id 0 is `fk2` and id 1 is `myfk` (SQLite numbers from the
+    last declared key); the result names id 0 `myfk` and leaves id 1 unnamed. *)
+Theorem C03_fk_names_refuted :
+  map pf_symbol (fill_const_name w_fk_text
+    [mkPfk (B "0") [B "pid"] (B "p") [B "id"]; mkPfk (B "1") [B "pid"] (B "p") [B "id"]]) = [B "myfk"; B "1"].
+Proof. exact w_fk_same_shape. Qed.
+Print Assumptions C03_fk_names_refuted.
